@@ -54,6 +54,8 @@ OkIgn(o) ==
        /\ Len(o.alt) = Len(ref) /\ Len(mask) = Len(ref)
        /\ \A i \in DOMAIN ref : ((o.alt[i] ^^ ref[i]) & (255 - mask[i])) = 0
        /\ o.dec = "ok" /\ o.dec_attrs = o.attrs /\ o.dec_size = Len(ref)
+       \* ignored on receipt also for == / Debug, and zero again when the decoded message is sent on
+       /\ ("same_dbg" \in DOMAIN o) => (o.same_dbg /\ o.reenc_same)
        /\ ("valid" \in DOMAIN o) => o.valid     \* RFC test vectors: MAC / CRC verify under the RFC's password
 
 \* ---- fault enumeration (C04 / C10): `cur` holds the message the following fault lines refer to
